@@ -101,6 +101,15 @@ def run_plan(plan, behaviour, policy, line_level, observer=True):
                 events.append({'e': 'start', 'kind': self.kind, 'j': self.jid})
                 try:
                     sched.yield_('job_body')
+                    if self.kind == 'queued' and observer:
+                        # asked from inside a queued job's body - i.e. while the controller has a current job - about every
+                        # background job
+                        for j in sorted(bg_jobs):
+                            tid = job_tid.get(j)
+                            settled = tid is not None and sched.threads[tid].status == 'done'
+                            ended = any(e['e'] == 'end' and e['j'] == j for e in events)
+                            answer = control.is_running('job%d' % j)
+                            events.append({'e': 'running', 'j': j, 'b': bool(answer), 'settled': bool(settled and ended)})
                     if behaviour.get(self.jid) == 'raise':
                         raise PlannedFailure(self.jid)
                     sched.yield_('job_body')
